@@ -90,6 +90,7 @@ class SubtreeSite:
     loop: ast.AST | None  # the For / comprehension binding x
     guard: Formula | None = None
     extra: list = field(default_factory=list)  # filters of a filtered copy of the collection, renamed to x
+    fills: list = field(default_factory=list)  # statements that put the looked-up sub-tree(s) into `target` when that is not the statement of the call
 
 
 @dataclass
@@ -454,10 +455,14 @@ def _hoist_helper_calls(repo: Repo, view: FuncInfo) -> bool:
     taken = {n.id for n in ast.walk(view.node) if isinstance(n, ast.Name)}
     counter = [0]
 
-    def fresh() -> str:
+    def fresh(stem: str = "") -> str:
+        # named after the helper whose result it holds, so that reports can be read against the source
+        if stem and f"result_of_{stem}" not in taken:
+            taken.add(f"result_of_{stem}")
+            return f"result_of_{stem}"
         while True:
             counter[0] += 1
-            name = f"hoisted{counter[0]}"
+            name = f"result{counter[0]}_of_{stem}" if stem else f"hoisted{counter[0]}"
             if name not in taken:
                 taken.add(name)
                 return name
@@ -498,7 +503,7 @@ def _hoist_helper_calls(repo: Repo, view: FuncInfo) -> bool:
                 if got is None:
                     break
                 fld, call, par, where_ = got
-                tmp = fresh()
+                tmp = fresh(call.func.id.strip("_") if isinstance(call.func, ast.Name) else "")
                 assign = ast.copy_location(ast.Assign(targets=[ast.Name(id=tmp, ctx=ast.Store())], value=call), st)
                 ref = ast.copy_location(ast.Name(id=tmp, ctx=ast.Load()), call)
                 if par is None:
@@ -1045,11 +1050,18 @@ def make_subst(repo: Repo, v: FuncInfo):
 
     mutated_at = _mutation_positions(v.node)
 
+    unions = _union_built(v.node, params)
+
     def member(left: str, se: ast.AST, depth: int = 0, top: bool = True) -> Formula | None:
         """Formula of `left in <set expression>` for set algebra over node sets (`A | B`, `A - B`, `A & B`, .union / .difference /
         .intersection, `{*A, *B}`), also through a local bound once to such an expression whose operands are complete by then.
         None when the expression is a plain set (the membership stays an atom)."""
         se = strip(se)
+        if isinstance(se, ast.Name) and se.id in unions and depth < 4:
+            # `U = set(A)` .. `U.update(B)` .. `U |= C` (all before U is read): U is A | B | C
+            parts_ = [member(left, x, depth + 1, False) for x in unions[se.id]]
+            if parts_ and all(p_ is not None for p_ in parts_):
+                return f_or(parts_)
         if isinstance(se, ast.Name):
             if se.id in single and se.id not in params and depth < 4:
                 val = strip(single[se.id])
@@ -1101,6 +1113,56 @@ def make_subst(repo: Repo, v: FuncInfo):
         return helper(e)
 
     return subst
+
+
+def _union_built(fn: ast.AST, params: set[str]) -> dict[str, list[ast.AST]]:
+    """U -> [A, B, C] for locals built as a union of node sets by top-level statements before their first use:
+    `U = set(A)` / `U = set()` / `U = A | B`, then `U.update(B)` / `U |= C`, nothing else ever changes U, and the operands are
+    not changed after they were put in."""
+    single = _single_assignments(fn)
+    mut = _mutation_positions(fn)
+    pos = mut["@pos"]
+    out: dict[str, list[ast.AST]] = {}
+    for u, val in single.items():
+        if u in params:
+            continue
+        st = stmt_of(val) if parent(val) is not None else None
+        if st is None or parent(st) is not fn:
+            continue
+        init = strip(val)
+        if _is_empty_collection(val):
+            comps: list[ast.AST] = []
+        elif isinstance(init, ast.Name) and init is not val and init.id != u:
+            comps = [init]  # a copy
+        else:
+            continue
+        grown: list[tuple[int, ast.AST]] = []
+        ok = True
+        for n in ast.walk(fn):
+            if isinstance(n, ast.Call) and isinstance(n.func, ast.Attribute) and isinstance(n.func.value, ast.Name) and n.func.value.id == u:
+                if n.func.attr == "update" and n.args and not n.keywords and isinstance(parent(n), ast.Expr) and parent(parent(n)) is fn and not any(isinstance(a, ast.Starred) for a in n.args):
+                    grown += [(pos[id(n)], a) for a in n.args]
+                elif n.func.attr in (_GROW | _SHRINK):
+                    ok = False
+            elif isinstance(n, ast.AugAssign) and isinstance(n.target, ast.Name) and n.target.id == u:
+                if isinstance(n.op, ast.BitOr) and parent(n) is fn:
+                    grown.append((pos[id(n)], n.value))
+                else:
+                    ok = False
+        if not ok or not grown:
+            continue
+        last = max(p_ for p_, _ in grown)
+        reads = [pos[id(n)] for n in ast.walk(fn) if isinstance(n, ast.Name) and n.id == u and isinstance(n.ctx, ast.Load) and not (isinstance(parent(n), ast.Attribute) and parent(n).attr == "update")]
+        if any(r <= last for r in reads):
+            continue
+        first = pos.get(id(val), -1)
+        puts = [(first, c) for c in comps] + sorted(grown, key=lambda t: t[0])
+        # an operand may be completed before it is put in, never afterwards
+        if any(mp > put for put, c in puts for x in ast.walk(c) if isinstance(x, ast.Name) for mp in mut.get(x.id, [])):
+            continue
+        comps = [c for _, c in puts]
+        out[u] = comps
+    return out
 
 
 def _mutation_positions(fn: ast.AST) -> dict:
@@ -1367,11 +1429,12 @@ def _receiving_var(call: ast.AST) -> tuple[str | None, bool]:
     return None, False
 
 
-def _flattened_into(fn: ast.AST, name: str) -> str | None:
+def _flattened_into(fn: ast.AST, name: str) -> tuple[str | None, list[ast.stmt]]:
     """The node set a collection of node sets `name` is united into: `X = set().union(*name)`, `X.update(*name)`, `X |= set().union(*name)`,
     `X = set(chain.from_iterable(name))`, `X = {n for t in name for n in t}`, `X = reduce(<union>, name, set())`. None unless every use
     of `name` is such a flattening into one and the same variable."""
     targets: set[str | None] = set()
+    stmts: list[ast.stmt] = []
     for n in ast.walk(fn):
         if not (isinstance(n, ast.Name) and n.id == name and isinstance(n.ctx, ast.Load)):
             continue
@@ -1394,8 +1457,9 @@ def _flattened_into(fn: ast.AST, name: str) -> str | None:
                 if isinstance(g2.iter, ast.Name) and g2.iter.id == par.target.id and isinstance(g2.target, ast.Name) and isinstance(comp.elt, ast.Name) and comp.elt.id == g2.target.id and not par.ifs and not g2.ifs:
                     flat = comp
         if flat is None:
-            return None
+            return None, []
         st = stmt_of(flat)
+        stmts.append(st)
         tgt = None
         if isinstance(st, ast.Assign) and len(st.targets) == 1 and isinstance(st.targets[0], ast.Name):
             tgt = st.targets[0].id
@@ -1405,8 +1469,8 @@ def _flattened_into(fn: ast.AST, name: str) -> str | None:
             tgt = st.value.func.value.id
         targets.add(tgt)
     if len(targets) == 1:
-        return next(iter(targets))
-    return None
+        return next(iter(targets)), stmts
+    return None, []
 
 
 def _subtree_sites(m: SearchModel, single: dict[str, ast.expr]) -> list[SubtreeSite]:
@@ -1422,8 +1486,11 @@ def _subtree_sites(m: SearchModel, single: dict[str, ast.expr]) -> list[SubtreeS
         if target is not None and not assigned and target in single and isinstance(strip(single[target]), _COMPS) and strip(single[target]).elt is c:
             # `trees = (get_all_submodules_of(graph, m) for m in P)`: a collection of sub-trees, not a node set; the node set is
             # what the collection is flattened into (`X = set().union(*trees)`, `X.update(*trees)`, `{n for t in trees for n in t}`)
-            target = _flattened_into(fn, target)
+            target, fills = _flattened_into(fn, target)
+        else:
+            fills = []
         site = SubtreeSite(c, arg, None, None, [], target, assigned, None)
+        site.fills = fills
         bl = _binding_loop(arg, c) if arg else None
         if bl is not None:
             site.loop = bl[0]
@@ -2112,6 +2179,106 @@ def opaque_set(m: SearchModel, name: str) -> bool:
                     continue
                 return True
     return False
+
+
+# --------------------------------------------------------------------------- where the elements of a node collection come from
+
+
+_PURE_BUILTINS = _WRAPPERS | {"len", "range", "enumerate", "zip", "str", "map", "filter", "min", "max", "any", "all", "isinstance", "dict", "deque", "chain", "get_node", "bool", "int", "next", "sum"}
+_STR_METHODS = _NAME_METHODS | {"join", "strip", "lstrip", "rstrip", "lower", "upper", "format", "replace", "splitlines", "isidentifier", "keys", "values", "items", "get", "copy", "union", "difference", "intersection", "append", "add", "extend", "update", "insert", "pop"}
+
+
+def provenance(m: SearchModel, e: ast.AST) -> set[str]:
+    """Leaves the value of a node-collection expression is computed from, following the local definitions, mutations and loop
+    bindings of the names it mentions: "filter:<p>" (identifier / parent flag of a module-filter parameter), "const",
+    "subtree" (a get_all_submodules_of call), "graph" (any use of the graph), "param:<x>" (another parameter as a whole),
+    "call:<f>" (a call the view could not look into).  A set whose leaves are only filters and constants is computed from
+    *names alone*."""
+    fn = m.fi.node
+    params = set(m.fi.param_names)
+    out: set[str] = set()
+    seen: set[str] = set()
+
+    defs: dict[str, list[ast.AST]] = {}
+    for n in ast.walk(fn):
+        if isinstance(n, ast.Assign):
+            for t in n.targets:
+                for x in ast.walk(t):
+                    if isinstance(x, ast.Name):
+                        defs.setdefault(x.id, []).append(n.value)
+        elif isinstance(n, (ast.AnnAssign, ast.AugAssign)) and n.value is not None and isinstance(n.target, ast.Name):
+            defs.setdefault(n.target.id, []).append(n.value)
+        elif isinstance(n, ast.NamedExpr):
+            defs.setdefault(n.target.id, []).append(n.value)
+        elif isinstance(n, (ast.For, ast.AsyncFor, ast.comprehension)):
+            for x in ast.walk(n.target):
+                if isinstance(x, ast.Name):
+                    defs.setdefault(x.id, []).append(n.iter)
+        elif isinstance(n, ast.Call) and isinstance(n.func, ast.Attribute) and isinstance(n.func.value, ast.Name) and n.func.attr in (_GROW | {"setdefault"}):
+            for a in n.args:
+                defs.setdefault(n.func.value.id, []).append(a)
+        elif isinstance(n, ast.withitem) and n.optional_vars is not None:
+            for x in ast.walk(n.optional_vars):
+                if isinstance(x, ast.Name):
+                    defs.setdefault(x.id, []).append(n.context_expr)
+
+    def visit(x: ast.AST) -> None:
+        if isinstance(x, ast.Constant):
+            out.add("const")
+            return
+        if isinstance(x, ast.Attribute) and isinstance(x.value, ast.Name) and x.value.id in params and x.attr in (NODE_ATTR, PARENT_FLAG, "identifier_is_regex"):
+            out.add(f"filter:{x.value.id}")
+            return
+        if isinstance(x, ast.Name):
+            if x.id == m.graph:
+                out.add("graph")
+            elif x.id in params:
+                out.add(f"filter:{x.id}" if x.id in m.filter_params or x.id in m.collection_params else f"param:{x.id}")
+            elif x.id in defs:
+                if x.id not in seen:
+                    seen.add(x.id)
+                    for d in defs[x.id]:
+                        visit(d)
+            elif x.id not in _PURE_BUILTINS and not isinstance(x.ctx, ast.Store):
+                out.add("const")  # a module-level constant
+            return
+        if isinstance(x, ast.Call):
+            if isinstance(x.func, ast.Name) and x.func.id == SUBMODULES:
+                out.add("subtree")
+                return
+            if isinstance(x.func, ast.Attribute) and x.func.attr in (SUCC, PRED, HIER):
+                out.add("graph")
+                return
+            if isinstance(x.func, ast.Name):
+                # a class of the library (Module(identifier=..)) only wraps its arguments; any other unknown call is opaque
+                if x.func.id in defs:
+                    visit(x.func)
+                elif x.func.id not in _PURE_BUILTINS and not x.func.id[:1].isupper():
+                    out.add(f"call:{x.func.id}")
+            elif isinstance(x.func, ast.Attribute):
+                if x.func.attr not in _STR_METHODS:
+                    out.add(f"call:{norm(x.func)}")
+                visit(x.func.value)
+            else:
+                visit(x.func)
+            for a in x.args:
+                visit(a)
+            for k in x.keywords:
+                visit(k.value)
+            return
+        if isinstance(x, ast.Lambda):
+            visit(x.body)
+            return
+        for c in ast.iter_child_nodes(x):
+            if isinstance(c, (ast.expr, ast.comprehension, ast.keyword)):
+                visit(c)
+
+    visit(e)
+    return out
+
+
+def names_only(prov: set[str]) -> bool:
+    return bool(prov) and all(x == "const" or x.startswith("filter:") for x in prov) and any(x.startswith("filter:") for x in prov)
 
 
 # --------------------------------------------------------------------------- early exits
